@@ -54,7 +54,7 @@ func (x *Exec) elemComp(h *Heap, elem types.Type) (string, *Term) {
 }
 
 func (x *Exec) mapComps(h *Heap, mt *types.Map, full types.Type) (string, *Term, string, *Term) {
-	k := typeKey(full)
+	k := mapTypeKey(full)
 	ks, vs := x.w.SortOf(mt.Key()), x.w.SortOf(mt.Elem())
 	vn, dn := "MV!"+k, "MD!"+k
 	return vn, x.compOf(h, vn, ArraySort(SInt, ArraySort(ks, vs))), dn, x.compOf(h, dn, ArraySort(SInt, ArraySort(ks, SBool)))
